@@ -7,7 +7,7 @@ from __future__ import annotations
 import ast
 
 from . import terms as tm
-from .terms import (T, TRUE, FALSE, BOOL, INT, STR, VAL, And, Or, Not, Implies, Ite, Eq, Add, Sub, Lt, Le,
+from .terms import (AIV, T, TRUE, FALSE, BOOL, INT, STR, VAL, And, Or, Not, Implies, Ite, Eq, Add, Sub, Lt, Le,
                     Gt, Ge, App, Is, Acc, VNONE, VBool, VInt, VStr, VRef, VCls, Select, Store, const, bvar,
                     intlit, strlit, boollit, fresh_name, Forall, Exists)
 from .symexec import State, Unsupported, SpecError, intlike, as_int
@@ -743,6 +743,10 @@ def g_query(verifier, vc, K=4, L=3, drop=(), pool=False):
         idv = Select(pre['f:_id'], r)
         scope.append(Implies(And(Is('VStr', idv), App('canon_uuid', BOOL, Acc('sv', idv))),
                              Eq(tm.StrLen(Acc('sv', idv)), intlit(36))))
+        # ids of the pre-state are real uuid texts (canon_uuid is uninterpreted: without this the solver may use
+        # any 36-character text as an id and relate it to other strings in ways no uuid allows)
+        if 'f:_id' in pre:
+            scope.append(Implies(Is('VStr', idv), Or(*[Eq(Acc('sv', idv), tm.strlit(x)) for x in G_POOL if len(x) == 36])))
         if pool:
             # finite string domain for names and ids of the pre-state (string search is what makes the
             # unconstrained query slow); texts of 36 characters stand for uuids and are mapped to real ones
@@ -760,14 +764,21 @@ def g_query(verifier, vc, K=4, L=3, drop=(), pool=False):
         labels.append(('param', name))
     values.append(nxt0)
     labels.append(('next',))
+    # fields first read after the pre-state was captured appear as base arrays H0_<field> only
+    late = {}
+    for cname, csort in tm.free_consts(asserts).items():
+        if cname.startswith('H0_') and csort == AIV and 'f:' + cname[3:] not in pre \
+                and cname[3:] not in ('pos', 'owner', 'kind', 'depth', 'llen', 'next'):
+            late[cname[3:]] = const(cname, AIV)
     for r in range(1, K + 1):
         rt = intlit(r)
         values.append(cls_of(rt))
         labels.append(('cls', r))
-        for f in sorted(set(G_FIELDS) | {k[2:] for k in pre if k.startswith('f:')}):
-            if 'f:' + f not in pre:
+        for f in sorted(set(G_FIELDS) | {k[2:] for k in pre if k.startswith('f:')} | set(late)):
+            arr = pre.get('f:' + f, late.get(f))
+            if arr is None:
                 continue
-            values.append(Select(pre['f:' + f], rt))
+            values.append(Select(arr, rt))
             labels.append(('field', r, f))
         values.append(Select(llen0, rt))
         labels.append(('llen', r))
